@@ -172,6 +172,9 @@ func RunC09(seed int64, tier, outDir string) (*emit.Summary, error) {
 	mid := rc.sh.files[0].Text
 	sum.Samples = []any{mid[0], mid[len(mid)/2], rc.sh.files[len(rc.sh.files)-1].Text[0]}
 	_ = fmt.Sprint
+	if err := runReaders(r, "C09", tier, outDir, sum); err != nil {
+		return nil, err
+	}
 	return sum, nil
 }
 
